@@ -24,19 +24,54 @@ def _rmp_ctor_calls(body):
     return out
 
 
+def _root_of(lib, b):
+    """The function a closure body is written in (the body itself for a function)."""
+    while b.raw["def_kind"] == "Closure" and b.raw.get("parent") in lib.by_id:
+        b = lib.by_id[b.raw["parent"]]
+    return b
+
+
+_FAM = {}
+
+
+def _family_calls(lib, fid):
+    """(sup, [(node, body, term)]): the call sites of function `fid` and of the closures written in it, as nodes of
+    its supergraph (so that an operand inside a closure can be followed to the function's own parameters). A call
+    site of a closure that the supergraph does not reach has node None."""
+    key = (id(lib), fid)
+    if key in _FAM:
+        return _FAM[key]
+    root = lib.by_id[fid]
+    fam = {b.id for b in lib.bodies if _root_of(lib, b).id == fid}
+    sup = Super(lib, root, depth=3, follow=lambda f: (f.get("resolved") or f.get("def")) in fam)
+    out = []
+    seen = set()
+    for n, b, t in sup.calls():
+        if b.id in fam and id(t) not in seen:
+            seen.add(id(t))
+            out.append((n, b, t))
+    for b in lib.bodies:
+        if b.id in fam:
+            for bb, t in b.calls():
+                if id(t) not in seen:
+                    out.append((None, b, t))
+    _FAM[key] = (sup, out)
+    return _FAM[key]
+
+
 def _sccs(lib):
     """Strongly connected components (size > 1 or self loop) of the direct call graph of lib."""
+    # a closure's calls are its enclosing function's calls (`(0..n).try_fold(0, |t, _| .. recurse ..)`)
     graph = {}
     for b in lib.bodies:
-        tg = set()
+        tg = graph.setdefault(_root_of(lib, b).id, set())
         for _, t in b.calls():
             f = fn_of(t) or {}
             for key in ("resolved", "def"):
                 d = f.get(key)
                 if d in lib.by_id:
-                    tg.add(d)
+                    tg.add(_root_of(lib, lib.by_id[d]).id)
                     break
-        graph[b.id] = tg
     index = {}
     low = {}
     stack = []
@@ -95,7 +130,7 @@ def r18_1(ctx):
     sccs, graph = _sccs(lib)
     for comp in sccs:
         for b in lib.bodies:
-            if b.id in comp:
+            if _root_of(lib, b).id in comp:
                 continue
             for bb, t in b.calls():
                 f = fn_of(t) or {}
@@ -222,14 +257,14 @@ def _budget_param(lib, comp):
         for fid in comp:
             if fid not in bp:
                 continue
-            b = lib.by_id[fid]
-            for bb, t in b.calls():
+            sup, fcalls = _family_calls(lib, fid)
+            for n_, b, t in fcalls:
                 f = fn_of(t) or {}
                 r = f.get("resolved") if f.get("resolved") in comp else f.get("def")
                 if r not in comp:
                     continue
                 for j, a in enumerate(t["args"], start=1):
-                    d = _delta(b, a, bp[fid])
+                    d = _delta_s(sup, n_, b, a, bp[fid])
                     if d is not None and r not in bp:
                         bp[r] = j
                         changed = True
@@ -237,17 +272,43 @@ def _budget_param(lib, comp):
         for fid in comp:
             if fid in bp:
                 continue
-            b = lib.by_id[fid]
-            for bb, t in b.calls():
+            sup, fcalls = _family_calls(lib, fid)
+            for n_, b, t in fcalls:
                 f = fn_of(t) or {}
                 r = f.get("resolved") if f.get("resolved") in comp else f.get("def")
                 if r in bp:
                     a = t["args"][bp[r] - 1]
-                    for i in range(1, b.nargs + 1):
-                        if _delta(b, a, i) is not None:
+                    for i in range(1, lib.by_id[fid].nargs + 1):
+                        if _delta_s(sup, n_, b, a, i) is not None:
                             bp[fid] = i
                             changed = True
     return bp
+
+
+def _delta_s(sup, node, body, op, param):
+    """`_delta` for a call site that may sit in a closure of the function: the operand is followed through the
+    closure's captured variables to the function's own parameter."""
+    if node is None:
+        return None
+    if not node[0]:
+        return _delta(body, op, param)
+    from model import strace
+
+    plain = ("use", "enter_caller", "deref", "ref", "field", "agg_field", "copyforderef")
+
+    def is_param(tr):
+        return bool(tr.origin and tr.origin[0] == "arg" and tr.origin[1] == param and not tr.origin_node[0] and all(s_[0] in plain for s_ in tr.steps))
+
+    tr = strace(sup, node, op)
+    if is_param(tr):
+        return 0
+    if tr.origin and tr.origin[0] == "rvalue" and all(s_[0] in plain for s_ in tr.steps):
+        rv = tr.origin[1]["rv"]
+        if rv["k"] == "binop" and rv["op"] in ("Sub", "SubWithOverflow", "SubUnchecked"):
+            c = const_value(rv["b"])
+            if isinstance(c, int) and c >= 0 and is_param(strace(sup, tr.origin_node, rv["a"])):
+                return c
+    return None
 
 
 def _delta(body, op, param):
@@ -315,15 +376,15 @@ def r18_3(ctx):
         edges = {}
         bad_edges = []
         for fid in comp:
-            b = lib.by_id[fid]
-            for bb, t in b.calls():
+            sup_, fcalls = _family_calls(lib, fid)
+            for n_, b, t in fcalls:
                 f = fn_of(t) or {}
                 r = f.get("resolved") if f.get("resolved") in comp else f.get("def")
                 if r not in comp:
                     continue
-                d = _delta(b, t["args"][bp[r] - 1], bp[fid])
+                d = _delta_s(sup_, n_, b, t["args"][bp[r] - 1], bp[fid])
                 if d is None:
-                    bad_edges.append((fid, r, bb))
+                    bad_edges.append((fid, r, n_))
                 else:
                     edges.setdefault((fid, r), []).append(d)
         ctx.ob(f"{name}:budget-derived-from-own-budget", not bad_edges, comp[0],
@@ -354,7 +415,7 @@ def r18_3(ctx):
         # initial budget from the external call
         k0 = None
         for b in lib.bodies:
-            if b.id in comp:
+            if _root_of(lib, b).id in comp:
                 continue
             for bb, t in b.calls():
                 f = fn_of(t) or {}
